@@ -163,7 +163,7 @@ CHECKS = {
              "the primitives' internal Bernoulli sampler replaced by an oracle that exhaustively explores every internal outcome (weights = the "
              "probabilities actually used): weighted mean of value and tangent vs closed forms; per-outcome duals vs the Lean model; seeded "
              "Monte-Carlo for programs whose continuations sample on their own; categorical/parallel enumeration, batched sites, pathwise identity; multi-site programs written ONCE and run both as genjax functions (every internal draw answered by an exhaustive oracle) and as terms of the Lean program model: the full distribution of (probability, value, tangent) outcomes and its mean are compared.",
-        note=TB + "C11: reparameterised primitives = JAX's pathwise JVP (trusted); continuous score-function sites are checked by calibrated means only.",
+        note=TB + "C11: reparameterised primitives = JAX's pathwise JVP (trusted); continuous score-function sites are checked by calibrated means only; open finding adev-site-in-cond-branch (a site inside a cond branch followed by a non-linear computation is biased) - the model's outcome-tree programs put the whole rest of the program under each outcome, which is what the property demands.",
         technique="Lean 4 + Mathlib proof + differential correspondence with exhaustive enumeration of the estimators' internal randomness",
         design="§3 C11"),
     "C15": dict(
